@@ -17,6 +17,7 @@ TList = z3.Datatype('TList')
 Term.declare('atom', ('atom_id', z3.IntSort()))
 Term.declare('bits', ('bits_len', z3.IntSort()), ('bits_val', z3.BitVecSort(BW)))
 Term.declare('lit', ('lit_id', z3.IntSort()))
+Term.declare('num', ('num_val', z3.IntSort()))
 Term.declare('app', ('app_f', z3.IntSort()), ('app_args', TList))
 TList.declare('tnil')
 TList.declare('tcons', ('hd', Term), ('tl', TList))
@@ -134,6 +135,8 @@ def term_str(t, depth=0):
         if b is not None:
             return 'x' + b.hex() if len(b) <= 40 else 'x%s..(%d bytes)' % (b[:8].hex(), len(b))
         return str(t)
+    if d == 'num':
+        return 'num(%s)' % t.arg(0)
     if d == 'app':
         args = is_app(t)
         if args is not None:
